@@ -187,7 +187,12 @@ fn twin_step(t: &mut Machine, kbl: bool, dsl: bool) -> (Outcome, Tree) {
     (match r { None => Outcome::Panic, Some(Ok(())) => Outcome::Ok, Some(Err(e)) => Outcome::Err(err_code(&e)) }, env)
 }
 
-pub struct Expect { out: Outcome, class: u8, steps: u64, iters: Vec<Tree>, why: &'static str }
+pub struct Expect { out: Outcome, class: u8, steps: u64, iters: Vec<Tree>, why: &'static str,
+                    /// access flags of the single steps, OR-ed per address (what a run's observer must hold: C28)
+                    acc: std::collections::BTreeMap<u16, u8> }
+fn take_acc(t: &mut Machine, acc: &mut std::collections::BTreeMap<u16, u8>) {
+    for (a, f) in t.sim.observer.take_mem_accesses() { *acc.entry(a).or_insert(0) |= (f.read() as u8) | ((f.written() as u8) << 1) | ((f.modified() as u8) << 2); }
+}
 
 /// Advance the twin by single steps until the documented stop condition of the call holds.
 fn oracle_call(t: &mut Machine, ctl: &Ctl, c: &Call, prev_class: u8) -> Expect {
@@ -195,17 +200,20 @@ fn oracle_call(t: &mut Machine, ctl: &Ctl, c: &Call, prev_class: u8) -> Expect {
     if c.kind == Kind::StepIn {
         ctl.arm(NONE, NONE);
         let (out, env) = twin_step(t, c.kbl, c.dsl);
-        return Expect { out, class: prev_class, steps: 1, iters: vec![L(vec![b(false), b(false), env])], why: "step_in" };
+        let mut acc = Default::default(); take_acc(t, &mut acc);
+        return Expect { out, class: prev_class, steps: 1, iters: vec![L(vec![b(false), b(false), env])], why: "step_in", acc };
     }
     let d0 = t.sim.frame_stack.len();
     if c.kind == Kind::Out && d0 == 0 {
-        return Expect { out: Outcome::Ok, class: prev_class, steps: 0, iters: vec![], why: "out_noop" };
+        return Expect { out: Outcome::Ok, class: prev_class, steps: 0, iters: vec![], why: "out_noop", acc: Default::default() };
     }
     ctl.arm(c.once, c.from);
     t.sim.mcr().store(true, Relaxed);
     let mut executed = 0u64; // instructions completed in this call, counted by the oracle itself
     let mut idx = 0u64;
     let mut iters = vec![];
+    let mut acc = Default::default();
+    let _ = t.sim.observer.take_mem_accesses().count();
     let (out, class, why) = loop {
         if !t.sim.mcr().load(Relaxed) { break (Outcome::Ok, 1, "mcr"); }
         let depth = t.sim.frame_stack.len();
@@ -222,6 +230,7 @@ fn oracle_call(t: &mut Machine, ctl: &Ctl, c: &Call, prev_class: u8) -> Expect {
         if matches!(c.kind, Kind::While(_)) && idx == c.tw_clear { t.sim.mcr().store(false, Relaxed); mid = true; }
         let ib = t.sim.instructions_run;
         let (out, env) = twin_step(t, c.kbl, c.dsl);
+        take_acc(t, &mut acc);
         iters.push(L(vec![b(false), b(mid), env]));
         idx += 1;
         match out { Outcome::Panic => break (out, 0, "panic"), Outcome::Err(_) => break (out, 0, "error"), Outcome::Ok => {} }
@@ -231,7 +240,7 @@ fn oracle_call(t: &mut Machine, ctl: &Ctl, c: &Call, prev_class: u8) -> Expect {
     };
     if out != Outcome::Panic { t.sim.mcr().store(false, Relaxed); }
     iters.push(dummy);
-    Expect { out, class, steps: idx, iters, why }
+    Expect { out, class, steps: idx, iters, why, acc }
 }
 
 /// everything but the access observer
@@ -463,6 +472,16 @@ fn history(ctx: &Ctx, shard: usize, r: &mut Rng, first: bool) {
             } else { diverged = false; }
         } else { diverged = false; }
         let obs = m.observe(&out);
+        // ---- C28 over runs: the observer after the call holds, per address, the OR of what the single steps touched
+        if !diverged && out != Outcome::Panic {
+            let got: Vec<(u16, u8)> = obs.as_l().and_then(|f| f.get(10)).and_then(|t| t.as_l()).map(|l| l.iter().filter_map(|x| { let l = x.as_l()?; Some((l[0].as_i()? as u16, l[1].as_i()? as u8)) }).collect()).unwrap_or_default();
+            let want: Vec<(u16, u8)> = e.acc.iter().map(|(a, f)| (*a, *f)).collect();
+            if got != want {
+                let d = got.iter().find(|x| !want.contains(x)).map(|x| format!("{:#06x} has flags {} after the call", x.0, x.1))
+                    .or_else(|| want.iter().find(|x| !got.contains(x)).map(|x| format!("{:#06x} should have flags {}", x.0, x.1))).unwrap_or_default();
+                ctx.fail("C28", "run_observer_differs_from_steps", format!("{} on '{}' program, {} steps: the access observer after the call is not the union of the single steps' accesses: {d}", kind_name(&c.kind), p.shape, polls), replay());
+            }
+        }
         results.push(L(vec![i(class), I(polls as i128), obs]));
         prev_class = class;
         if out == Outcome::Panic { ctx.stat("panic", 1); break; }
